@@ -18,6 +18,7 @@ package main
 import (
 	"bytes"
 	"encoding/json"
+	"flag"
 	"fmt"
 	"io"
 	"math"
@@ -286,7 +287,7 @@ func classOf(cp int) string {
 
 // boundary members of every class (as strings; "invalid" members are byte strings)
 var classBoundary = map[string][]string{
-	"plain": {"a", " ", "~", "!", "/", "#", "`", "%", ":", ";", "(", ")", "[", "]", "{", "}", ",", "&", "|", "^", "@", "$", "<", ">", "-", "+", ".", "=", "*", "?", "0", "9", "A", "Z", "_", "z"},
+	"plain":     {"a", " ", "~", "!", "/", "#", "`", "%", ":", ";", "(", ")", "[", "]", "{", "}", ",", "&", "|", "^", "@", "$", "<", ">", "-", "+", ".", "=", "*", "?", "0", "9", "A", "Z", "_", "z"},
 	"dquote":    {"\""},
 	"squote":    {"'"},
 	"backslash": {"\\"},
@@ -1035,7 +1036,11 @@ func codecScalars(r *rng, thorough bool) []member {
 
 func init() {
 	register("codec", "C11: JSON / msgpack round trips and JSON well-formedness", func(args []string) int {
-		c := commonFlags("codec", args, nil)
+		part, nparts := 0, 1
+		c := commonFlags("codec", args, func(fs *flag.FlagSet) {
+			fs.IntVar(&part, "part", 0, "produce only the cases of this part (the check validates a large run in parts)")
+			fs.IntVar(&nparts, "nparts", 1, "number of parts")
+		})
 		d := newCodecDriver()
 		w := newWriter(c.out)
 		defer w.close()
@@ -1043,8 +1048,9 @@ func init() {
 			return codecReplay(d, c, w)
 		}
 		idx := 0
+		mine := func(i int) bool { return i%nparts == part && c.mine(i/nparts) }
 		emit := func(prefix string, g *gval, cls string) {
-			if c.mine(idx) {
+			if mine(idx) {
 				w.write(d.rtCase(fmt.Sprintf("%s%d", prefix, idx), g, cls))
 			}
 			idx++
@@ -1061,7 +1067,7 @@ func init() {
 				ms = append(ms, randMember(r0, cls))
 			}
 			for _, m := range ms {
-				if c.mine(idx) {
+				if mine(idx) {
 					w.write(d.clsCase(fmt.Sprintf("c%d", idx), cls, m))
 				}
 				idx++
@@ -1083,7 +1089,7 @@ func init() {
 		palette := []*gval{gNil(), gBool(true), gInt(7), gFlt(2.5, false), gFlt(1.0, false), gStr("x")}
 		trees := enumTrees(palette, []string{"arr", "hash", "rec"}, 2)
 		for i, t := range trees {
-			if !c.thorough() && t.depth() == 2 && len(t.E) == 2 && !hashSel(c.seed, i, 1, 12) {
+			if !c.thorough() && t.depth() == 2 && len(t.E) == 2 && !hashSel(c.seed, i, 1, 16) {
 				continue
 			}
 			emit("b", t, "tree")
@@ -1102,7 +1108,7 @@ func init() {
 		// (d) seeded random nested values to depth 3, <= 3 children
 		n := c.n
 		if n == 0 {
-			n = 2500
+			n = 1500
 			if c.thorough() {
 				n = 60000
 			}
